@@ -435,7 +435,9 @@ using PublicPrivateRequiredPair = std::pair<bool, bool>;
 PublicPrivateRequiredPair publicAndOrPrivateInterfaceTypeRequired(const VariablePtr &variable)
 {
     PublicPrivateRequiredPair pair = std::make_pair(false, false);
-    for (size_t index = 0; index < variable->equivalentVariableCount() && !(pair.first && pair.second); ++index) {
+    // Every equivalent variable is inspected: one that cannot be reached makes the result an error even when
+    // both interface types have already been found to be required.
+    for (size_t index = 0; index < variable->equivalentVariableCount(); ++index) {
         auto equivalentVariable = variable->equivalentVariable(index);
         auto componentOfVariable = variable->parent();
         auto componentOfEquivalentVariable = equivalentVariable->parent();
